@@ -18,6 +18,23 @@ def tcheck_bin():
     return out
 
 
+KEY_COLLIDE = ("C12/private-name-collides-with-generated-identifier", "with private definitions a record whose lower-cased name is `r`, `buf` or an imported package name (iohelp, io, bebop, time, ...) "
+               "collides with an identifier of the generated file: it does not type-check")
+COLLIDING = {"r", "buf", "iohelp", "io", "bebop", "time", "math", "sync", "unsafe"}
+
+
+def private_collision(txt, o, line):
+    """the known finding, narrowly: private definitions are on, the type checker names an identifier of the colliding set, and a record of the schema has exactly that private name"""
+    import re
+    if not o & 8:
+        return False
+    m = re.match(r"err (\w+) (is not a type|already declared through import of package|redeclared)", line)
+    if not m or m.group(1) not in COLLIDING:
+        return False
+    names = re.findall(r"\b(?:struct|message|union)\s+(\w+)", txt)
+    return m.group(1) in {n[0].lower() + n[1:] for n in names}
+
+
 def nested_in_message(items):
     def nested(t):
         return t[0] in "am" and (t[1] if t[0] == "a" else t[2])[0] in "am"
@@ -50,6 +67,9 @@ def single_use_schemas():
     out.append("message M0 {}\n")
     out.append("struct S { E0 e; }\nstruct E0 {}\n")
     out.append("readonly struct R { date d; }\n")
+    for nm in ("Buf", "Io", "Time", "W", "V", "Err", "At", "I", "K", "Bbp", "Elem", "Ln", "Iow", "Ior"):      # names whose private form is an identifier the generated code uses
+        out.append("struct %s { date d; string[] s; map[string, int32] m; }\n" % nm)
+        out.append("message %s { 1 -> date d; 2 -> string[] s; }\n" % nm)
     out.append("[opcode(\"ABCD\")]\nstruct O { guid g; }\n")
     return out
 
@@ -146,6 +166,8 @@ def check(tier, seed, replay=None):
             continue
         tally["err"] += 1
         if items is not None and nested_in_message(items) and run.known(*KEY_NESTED):
+            continue
+        if private_collision(txt, o, line) and run.known(*KEY_COLLIDE):
             continue
         found = True
         if len(run.violations) < 4:
